@@ -343,3 +343,36 @@ func H07Templates() {
 	_, err = NewFilter("k:\"" + string(w))
 	vndAssert(err != nil, "unterminated-quote-rejected-template")
 }
+
+// H07TwoTerms: two quoted terms in one filter each denote their own key and
+// value, also when their "key:value" spellings coincide (quotes make ':' an
+// ordinary character).
+func H07TwoTerms() {
+	alpha := func(b []byte) {
+		for _, c := range b {
+			vndAssume(vndOr(vndOr(c == 'a', c == 'b'), c == ':'))
+		}
+	}
+	lk1, lv1 := vndParam("k1"), vndParam("v1")
+	lk2, lv2 := vndParam("k2"), vndParam("v2")
+	k1, v1 := vndBytes("k1", lk1), vndBytes("v1", lv1)
+	k2, v2 := vndBytes("k2", lk2), vndBytes("v2", lv2)
+	alpha(k1)
+	alpha(v1)
+	alpha(k2)
+	alpha(v2)
+	vndAssume(vndAnd(k1[0] != ':', k2[0] != ':'))
+	f, err := NewFilter(h07Quote(k1) + ":" + h07Quote(v1) + " OR " + h07Quote(k2) + ":" + h07Quote(v2))
+	vndAssert(err == nil, "two-quoted-terms-parse")
+	if err != nil {
+		return
+	}
+	vndReach("h07:two-terms")
+	// a result that satisfies only the second term
+	res := h07Result(string(k2), string(v2))
+	vndAssert(h07Match(f, res), "second-term-denotes-its-own-key-and-value")
+	// and one that satisfies neither unless the terms coincide
+	other := h07Result(string(k2), string(v2)+"x")
+	sameTerm := vndAnd(string(k1) == string(k2), string(v1) == string(v2)+"x")
+	vndAssert(h07Match(f, other) == sameTerm, "no-term-matches-a-different-value")
+}
